@@ -174,4 +174,75 @@ theorem undoEntry_abs (db : Db) (s s' : JState) (e : Entry)
   | transientChange a k had => exact undo_transientChange db s s' a k had h
   | codeChange a => exact undo_codeChange db s s' a h
 
+
+theorem sdOf_eq {s s' : JState} (h : s'.spec = s.spec) : sdOf s' = sdOf s := by simp [sdOf, h]
+
+/-- what an undo of a list of entries leaves alone, and what it does to the observable state -/
+structure UndoneBy (db : Db) (s s' : JState) (es : List Entry) : Prop where
+  abs : absT db s' = undoTs (sdOf s) (absT db s) es
+  spec : s'.spec = s.spec
+  pre : s'.preloaded = s.preloaded
+  journal : s'.journal = s.journal
+  logs : s'.logs = s.logs
+
+theorem undoLevel_abs (db : Db) (l : List Entry) (s s' : JState)
+    (h : undoLevel (sdOf s) s l = some s')
+    (hz : ∀ a, Entry.accountCreated a ∈ l → ∀ k, db.storage a k = 0) : UndoneBy db s s' l := by
+  induction l generalizing s with
+  | nil => simp [undoLevel] at h; subst h; exact ⟨rfl, rfl, rfl, rfl, rfl⟩
+  | cons e es ih =>
+    simp only [undoLevel, bind, Option.bind] at h
+    cases h1 : undoEntry (sdOf s) s e with
+    | none => simp [h1] at h
+    | some s1 =>
+      simp [h1] at h
+      obtain ⟨a1, a2, a3, a4, a5⟩ := undoEntry_abs db s s1 e h1 (fun a ha => hz a (by simp [ha]))
+      have esd : sdOf s1 = sdOf s := sdOf_eq a2
+      rw [← esd] at h
+      have r := ih s1 h (fun a ha => hz a (by simp [ha]))
+      exact ⟨by rw [r.abs, esd, a1]; rfl, r.spec.trans a2, r.pre.trans a3, r.journal.trans a4, r.logs.trans a5⟩
+
+theorem undoLevels_abs (db : Db) (ls : List (List Entry)) (s s' : JState)
+    (h : undoLevels (sdOf s) s ls = some s')
+    (hz : ∀ a, Entry.accountCreated a ∈ ls.flatten → ∀ k, db.storage a k = 0) : UndoneBy db s s' ls.flatten := by
+  induction ls generalizing s with
+  | nil => simp [undoLevels] at h; subst h; exact ⟨rfl, rfl, rfl, rfl, rfl⟩
+  | cons l rest ih =>
+    simp only [undoLevels, bind, Option.bind] at h
+    cases h1 : undoLevel (sdOf s) s l with
+    | none => simp [h1] at h
+    | some s1 =>
+      simp [h1] at h
+      have r1 := undoLevel_abs db l s s1 h1 (fun a ha => hz a (by simp [ha]))
+      have esd : sdOf s1 = sdOf s := sdOf_eq r1.spec
+      rw [← esd] at h
+      have r := ih s1 h (fun a ha => hz a (by simp [ha]))
+      refine ⟨?_, r.spec.trans r1.spec, r.pre.trans r1.pre, r.journal.trans r1.journal, r.logs.trans r1.logs⟩
+      rw [r.abs, esd, r1.abs, List.flatten_cons, undoTs_append]
+
+/-- the entries in the journal levels with index `≥ j` (newest first) -/
+def above (j : Nat) (journal : List (List Entry)) : List Entry := (journal.take (journal.length - j)).flatten
+
+/-- `checkpoint_revert`, observably: the entries above the checkpoint are undone, logs and journal truncated -/
+theorem revert_abs (db : Db) (s s' : JState) (cp : Checkpoint) (h : revert s cp = some s')
+    (hz : ∀ a, Entry.accountCreated a ∈ above cp.journalI s.journal → ∀ k, db.storage a k = 0) :
+    cp.journalI ≤ s.journal.length ∧
+    absT db s' = undoTs (sdOf s) (absT db s) (above cp.journalI s.journal) ∧
+    s'.spec = s.spec ∧ s'.preloaded = s.preloaded ∧
+    s'.journal = s.journal.drop (s.journal.length - cp.journalI) ∧ s'.logs = s.logs.take cp.logI := by
+  unfold revert at h
+  by_cases hl : s.journal.length < cp.journalI
+  · simp [hl] at h
+  · simp only [hl, if_false] at h
+    cases hu : undoLevels (decide (s.spec ≥ SPURIOUS_DRAGON)) s (s.journal.take (s.journal.length - cp.journalI)) with
+    | none => simp [hu] at h
+    | some s1 =>
+      simp [hu] at h; subst h
+      have r := undoLevels_abs db _ s s1 hu hz
+      refine ⟨Nat.le_of_not_lt hl, ?_, r.spec, r.pre, rfl, rfl⟩
+      show _ = undoTs (sdOf s) (absT db s) (s.journal.take (s.journal.length - cp.journalI)).flatten
+      rw [← r.abs]
+      exact absT_congr db rfl rfl rfl rfl
+
+
 end Revm.Proofs.Journal
